@@ -10,7 +10,7 @@ CHECKS['C09'] = {
             'distinct = fingerprint of the operation history or manifest',
     'assumptions': ['reference grammar from doc/architecture/manifest-format; bytes >= 0x7f are accepted unescaped in names'],
     'units': [
-        unit('machine', 'arvados', '^TestVerifC09Machine$', {'shards': 12, 'checks': 200, 'steps': 50}, {'shards': 14, 'checks': 12000, 'steps': 150, 'timeout': 3600}, crash_is_violation=True),
+        unit('machine', 'arvados', '^TestVerifC09Machine$', {'shards': 12, 'checks': 400, 'steps': 50}, {'shards': 14, 'checks': 12000, 'steps': 150, 'timeout': 3600}, crash_is_violation=True),
         unit('loadsave', 'arvados', '^TestVerifC09LoadSave$', {'shards': 4, 'checks': 1500}, {'shards': 2, 'checks': 100000, 'timeout': 2400}),
     ],
 }
